@@ -26,4 +26,29 @@ def split_model(B, st, s, args, kwargs, node):
     sp[str(res.ref)] = (s, sep)
     st.ghost["splits"] = sp
     eng.used_assumptions.add("str.split(sep): >= 1 parts, exactly one part (the string itself) iff sep does not occur")
+    if z3.is_string_value(sep.t) and len(sep.t.as_string()) == 1:
+        # one-character separator: occurrences + 1 parts; the last part is what follows the last occurrence
+        cnt = B.sp_count_char(st, [s, sep], {}, node).t
+        st.assume(n == cnt + 1)
+        r = last_index(B, s.t, sep.t)
+        st.assume(z3.Implies(z3.Contains(s.t, sep.t),
+                             z3.Select(arr, n - 1) == z3.SubString(s.t, r + 1, z3.Length(s.t) - r - 1)))
+        eng.used_assumptions.add("str.split(c) for a one-character c: count(c) + 1 parts, the last part is the text after the last c")
     return res
+
+
+def last_index(B, t, c):
+    """index of the last occurrence of the one-character string c in t (-1 if none)"""
+    f = z3.Function("STRLAST", z3.StringSort(), z3.StringSort(), z3.IntSort())
+    if not getattr(B, "_strlast_ax", False):
+        B._strlast_ax = True
+        a, ch = z3.String("sla!"), z3.String("slc!")
+        k = z3.Int("slk!")
+        ax = B.eng.axioms
+        ax.append(FA([a, ch], z3.And(f(a, ch) >= -1, f(a, ch) < z3.Length(a)), patterns=[f(a, ch)]), keys={"STRLAST"})
+        ax.append(FA([a, ch], z3.Implies(z3.And(z3.Contains(a, ch), z3.Length(ch) == 1),
+                                            z3.And(f(a, ch) >= 0, char_at(a, f(a, ch)) == ch)), patterns=[f(a, ch)]), keys={"STRLAST"})
+        ax.append(FA([a, ch], z3.Implies(z3.Not(z3.Contains(a, ch)), f(a, ch) == -1), patterns=[f(a, ch)]), keys={"STRLAST"})
+        ax.append(FA([a, ch, k], z3.Implies(z3.And(k > f(a, ch), k < z3.Length(a)), char_at(a, k) != ch),
+                       patterns=[z3.MultiPattern(f(a, ch), char_at(a, k))]), keys={"STRLAST"})
+    return f(t, c)
